@@ -1,8 +1,10 @@
 """Synthetic ooaofooa base model + generator of name-resolved OAL action bodies (C05, C06).
 
   SPEC            a small application model written as plain data: classes (attributes, one referential
-                  attribute, operations with parameters, one derived attribute), associations, functions,
-                  external entities with bridges, enumerations, constants, and four action *homes*
+                  attribute, attributes and parameters declared with user-defined types over chains of S_UDT,
+                  operations with parameters, one derived attribute), associations, functions, external entities
+                  with bridges, enumerations, constants, state-machine events (SM_SM / SM_ISM / SM_ASM / SM_EVT)
+                  for the event statements, and four action *homes*
                   (function, bridge, operation, derived attribute) whose body text the cases supply
   build_base(m)   instantiates SPEC as ooaofooa instances (O_OBJ, O_ATTR, O_TFR, S_SYNC, S_EE, S_BRG,
                   S_DT/S_IRDT/S_EDT/S_ENUM, CNST_*, R_REL, parameters) in a fresh ooaofooa metamodel `m`
